@@ -2,7 +2,8 @@
    the model's own observations. *)
 From Coq Require Import List ZArith Bool Arith Lia Permutation.
 From Verif Require Import C07.Model C07.Spec C07.Proofs_Res C07.Proofs_Ledger C07.Proofs_View
-  C07.Proofs_Alloc C07.Proofs_Allocate C07.Proofs_State C07.Proofs_Inv C07.Proofs_Preempt.
+  C07.Proofs_Alloc C07.Proofs_Allocate C07.Proofs_Desig C07.Proofs_AllocateR C07.Proofs_State C07.Proofs_Inv
+  C07.Proofs_Preempt.
 Import ListNotations.
 Open Scope Z_scope.
 
@@ -79,19 +80,19 @@ Proof.
     destruct (allocs_of da 0); auto. now apply gpu_coupled_remove.
 Qed.
 
-Lemma ledger_ok_true b l minors per m : b = true -> ledger_ok b l minors per m -> ledger_ok true l minors per m.
+Lemma ledger_okx_true b l minors per m : b = true -> ledger_okx b l minors per m -> ledger_okx true l minors per m.
 Proof. intros ->. auto. Qed.
 
-Lemma inv_schedule s p rq da :
+(* committing an allocation whose every device was found to fit keeps the invariant *)
+Lemma inv_commit s p rq da :
   ugood s -> wgood s -> raw_nonneg rq = true -> lookup p (envrec s) = None ->
   sched_ok (nkind s) (ledgers s) rq = true ->
-  allocate (nkind s) (ledgers s) (infos s) rq = ADone da -> inv_ok (ledgers s) ->
-  inv_ok (cache_update true (ledgers s) p da).
+  (forall t, (t < 3)%nat -> type_done (nkind s) (ledgers s) (infos s) rq t (allocs_of da t)) ->
+  inv_ok (ledgers s) -> inv_ok (cache_update true (ledgers s) p da).
 Proof.
-  intros U W NN Lp So A [N C].
+  intros U W NN Lp So D [N C].
   assert (G : forall t, lgood (ledger_of (ledgers s) t)) by (intros t; apply (good_lgood s t U W)).
-  pose proof (allocate_done _ _ _ _ _ G A) as D.
-  pose proof (allocate_done_wf _ _ _ _ _ G NN A) as Wd.
+  pose proof (type_done_wf _ _ _ _ _ (G 0%nat) NN D) as Wd.
   assert (Hp : forall t, (t < 3)%nat -> aset_mem p (aset (ledger_of (ledgers s) t)) = false).
   { intros t Ht. pose proof (ug_cons _ U t Ht p) as Cp. now rewrite Lp in Cp. }
   assert (Step : forall t, (t < 3)%nat ->
@@ -105,9 +106,9 @@ Proof.
     destruct D as [_ [ND Hall0]].
     pose proof (sched_ok_pfit _ _ _ _ _ _ _ So Et) as Pf.
     assert (Hall : forall a, In a (allocs_of da t) ->
-              ledger_ok true (ledger_of (ledgers s) t) (minors_of (infos s) t) per (fst a) /\
+              ledger_okx true (ledger_of (ledgers s) t) (minors_of (infos s) t) per (fst a) /\
               granted t (total (ledger_of (ledgers s) t)) per a).
-    { intros a Ha. destruct (Hall0 a Ha) as [H1 H2]. split; auto. eapply ledger_ok_true; eauto. }
+    { intros a Ha. destruct (Hall0 a Ha) as [H1 H2]. split; auto. eapply ledger_okx_true; eauto. }
     apply treq_spec in Et as [_ [Hper [E2 _]]]. specialize (Hper NN).
     set (l := ledger_of (ledgers s) t) in *.
     assert (Gl' : lgood (ledger_add l p (allocs_of da t))).
@@ -135,6 +136,30 @@ Proof.
   - apply (Step 0%nat); auto.
 Qed.
 
+Lemma inv_schedule s p rq da :
+  ugood s -> wgood s -> raw_nonneg rq = true -> lookup p (envrec s) = None ->
+  sched_ok (nkind s) (ledgers s) rq = true ->
+  allocate (nkind s) (ledgers s) (infos s) rq = ADone da -> inv_ok (ledgers s) ->
+  inv_ok (cache_update true (ledgers s) p da).
+Proof.
+  intros U W NN Lp So A. apply (inv_commit s p rq da); auto.
+  apply allocate_done; auto. intros t. now apply good_lgood.
+Qed.
+(* ... whether the cycle carries a designated allocation or not *)
+Lemma inv_reserve s p c da :
+  ugood s -> wgood s -> cycle_wf c -> lookup p (envrec s) = None ->
+  sched_ok (nkind s) (ledgers s) (fst c) = true ->
+  cycle_allocate s c = ADone da -> inv_ok (ledgers s) ->
+  inv_ok (cache_update true (ledgers s) p da).
+Proof.
+  intros U W [NN Wd] Lp So A.
+  assert (G : forall t, lgood (ledger_of (ledgers s) t)) by (intros t; now apply good_lgood).
+  unfold cycle_allocate in A. destruct (snd c) as [dg|].
+  - destruct (allocate_d_done _ _ _ _ _ _ _ G Wd (fun _ => NN) A) as [dg' [_ [_ D]]].
+    apply (inv_commit s p (fst c) da); auto. intros t Ht. now apply D.
+  - now apply (inv_schedule s p (fst c) da).
+Qed.
+
 Lemma inv_ok_ext ls ls' :
   (forall t, (t < 3)%nat -> ledger_of ls' t = ledger_of ls t) -> inv_ok ls -> inv_ok ls'.
 Proof.
@@ -144,27 +169,72 @@ Proof.
 Qed.
 
 (* ------------------------------------------------------------------ the allocation clauses *)
+Lemma okx_fits b l minors per m : b = true -> ledger_okx b l minors per m ->
+  match dget (free l) m with Some _ => fits_exposed l per m | None => false end = true.
+Proof.
+  intros Hb [_ [f [Ef [R _]]]]. rewrite Ef. unfold fits_exposed. apply forallb_forall. intros k _.
+  destruct (rget (ores (dget (total l) m)) k) as [T|] eqn:ET; auto.
+  destruct (rget per k) as [v|] eqn:Ev; auto. apply Z.leb_le.
+  unfold dval. rewrite Ef. cbn [ores]. exact (R Hb k T v ET Ev).
+Qed.
+Lemma granted_granted_ok t tot per a : granted t tot per a -> granted_ok t per (snd a) = true.
+Proof.
+  intros [G0 [G1 [Gn Gz]]]. unfold granted_ok. rewrite G0, G1, !opt_eqb_refl. cbn [andb].
+  destruct t as [|t]; auto. rewrite (Gn ltac:(discriminate)). apply opt_eqb_refl.
+Qed.
+
 Lemma type_done_sound kind ls infos rq t al :
-  lgood (ledger_of ls t) -> sched_ok kind ls rq = true ->
+  sched_ok kind ls rq = true ->
   type_done kind ls infos rq t al -> alloc_sound_t ls infos t rq al = true.
 Proof.
-  intros G So D. unfold type_done in D. unfold alloc_sound_t.
+  intros So D. unfold type_done in D. unfold alloc_sound_t.
   destruct (treq_of rq t) as [| |per count sh] eqn:Et; try (now rewrite D).
   pose proof (sched_ok_pfit _ _ _ _ _ _ _ So Et) as Pf.
   destruct D as [Len [ND Hall]]. rewrite !andb_true_iff. split; [split|].
   - apply Nat.eqb_eq. exact Len.
   - now apply nodupn_NoDup.
-  - apply forallb_forall. intros a Ha. destruct (Hall a Ha) as [[Hin [f [Ef [R Z]]]] [G0 [G1 [Gn Gz]]]].
-    specialize (R Pf). rewrite !andb_true_iff. split; [split|].
-    + now apply memn_In.
-    + unfold fits_exposed. apply forallb_forall. intros k _.
-      destruct (rget (ores (dget (total (ledger_of ls t)) (fst a))) k) as [T|] eqn:ET; auto.
-      destruct (rget per k) as [v|] eqn:Ev; auto. apply Z.leb_le.
-      pose proof (view_free_rle_exposed _ (lg_fs _ G) (lg_tot _ G) (lgood_used_nonneg _ G)
-                    (fst a) f Ef per k T v R ET Ev) as Hv.
-      unfold dval. rewrite Ef. exact Hv.
-    + unfold granted_ok. rewrite G0, G1, !opt_eqb_refl. cbn [andb].
-      destruct t as [|t]; auto. rewrite (Gn ltac:(discriminate)). apply opt_eqb_refl.
+  - apply forallb_forall. intros a Ha. destruct (Hall a Ha) as [Lo Gr].
+    rewrite !andb_true_iff. split; [split|].
+    + apply memn_In. apply Lo.
+    + pose proof (okx_fits _ _ _ _ _ Pf Lo) as F. destruct Lo as [_ [f [Ef _]]]. now rewrite Ef in F.
+    + eapply granted_granted_ok; eauto.
+Qed.
+Lemma type_done_d_sound kind ls infos rq dg t al : (t < 3)%nat ->
+  sched_ok kind ls rq = true ->
+  type_done kind ls infos rq t al -> type_done_d kind ls infos rq (map (required_of dg) type_ids) t al ->
+  desig_sound_t ls infos dg t rq al = true.
+Proof.
+  intros Ht So D Dd. unfold type_done in D. unfold type_done_d in Dd. unfold desig_sound_t.
+  destruct (treq_of rq t) as [| |per count sh] eqn:Et; try (now rewrite D).
+  pose proof (sched_ok_pfit _ _ _ _ _ _ _ So Et) as Pf.
+  destruct D as [Len [ND Hall]]. rewrite !andb_true_iff. split; [split|].
+  - apply Nat.eqb_eq. exact Len.
+  - now apply nodupn_NoDup.
+  - apply forallb_forall. intros a Ha. destruct (Hall a Ha) as [Lo Gr]. specialize (Dd a Ha).
+    rewrite vl_required in Dd by auto.
+    rewrite !andb_true_iff. split; [split|].
+    + apply memn_In. apply Lo.
+    + exact (okx_fits _ _ _ _ _ Pf Dd).
+    + eapply granted_granted_ok; eauto.
+Qed.
+(* Filter of a designated pod accepted: enough designated devices can take the request *)
+Lemma type_done_d_enough kind ls infos rq dg t al : (t < 3)%nat ->
+  sched_ok kind ls rq = true ->
+  type_done kind ls infos rq t al -> type_done_d kind ls infos rq (map (required_of dg) type_ids) t al ->
+  desig_enough_t ls infos dg t rq = true.
+Proof.
+  intros Ht So D Dd. unfold type_done in D. unfold type_done_d in Dd. unfold desig_enough_t.
+  destruct (treq_of rq t) as [| |per count sh] eqn:Et; auto.
+  pose proof (sched_ok_pfit _ _ _ _ _ _ _ So Et) as Pf.
+  destruct D as [Len [ND Hall]]. apply Nat.leb_le. unfold desired_of. rewrite <- Len, <- (map_length fst al).
+  unfold maybe_count. apply NoDup_incl_length; auto. intros m Hm. apply in_map_iff in Hm as [a [<- Ha]].
+  specialize (Dd a Ha). rewrite vl_required in Dd by auto.
+  pose proof (okx_fits _ _ _ _ _ Pf Dd) as F. destruct Dd as [Hin [f [Ef [_ Z]]]].
+  apply filter_In. split.
+  - apply in_seq. split; [lia|]. cbn [Nat.add].
+    destruct (Nat.lt_ge_cases (fst a) (length (free (avail_of ls dg t)))) as [L|L]; auto.
+    rewrite dget_overflow in Ef by auto. discriminate.
+  - unfold maybe_minor. apply memn_In in Hin. rewrite Hin, Z. cbn [negb andb]. exact F.
 Qed.
 
 (* ------------------------------------------------------------------ live pods vs allocate set *)
@@ -184,7 +254,7 @@ Qed.
 
 Lemma step_rec s o : envrec (fst (step s o)) = next_rec (envrec s) o (snd (step s o)).
 Proof.
-  unfold next_rec. destruct o as [inv|p rq|p|p|p|p al| |p al|p|p rq vs|kind]; cbn [step].
+  unfold next_rec. destruct o as [inv|p rq|p|p|p|p al| |p al|p|p rq vs|kind|p rq hint al|p|p]; cbn [step].
   - reflexivity.
   - destruct (lookup p (envrec s)) as [x|] eqn:L; [reflexivity|].
     destruct (allocate (nkind s) (ledgers s) (infos s) rq) as [|code|da] eqn:A; try reflexivity.
@@ -198,6 +268,21 @@ Proof.
   - destruct (lookup p (envrec s)) as [[da b]|] eqn:L; reflexivity.
   - cbn [fst snd o_code out_code]. now destruct (negb _).
   - reflexivity.
+  - destruct (lookup p (envrec s)) as [x|] eqn:L; [reflexivity|].
+    unfold run_filter. destruct (filter_verdict s _) as [code c']. cbn [fst snd o_code out_code with_pend envrec].
+    now destruct (negb _).
+  - destruct (lookup p (envrec s)) as [x|] eqn:L; [reflexivity|].
+    destruct (lookup p (pend s)) as [c|]; [|reflexivity].
+    unfold run_filter. destruct (filter_verdict s _) as [code c']. cbn [fst snd o_code out_code with_pend envrec].
+    now destruct (negb _).
+  - destruct (lookup p (envrec s)) as [x|] eqn:L; [reflexivity|].
+    destruct (lookup p (pend s)) as [c|]; [|reflexivity].
+    destruct (cycle_allocate s c) as [|code|da] eqn:A; try reflexivity.
+    assert (Hc : code = c_unresolvable \/ (code = c_unsched \/ code = c_error)).
+    { unfold cycle_allocate in A. destruct (snd c).
+      - eapply allocate_d_fail_codes; eauto.
+      - eapply allocate_fail_codes; eauto. }
+    destruct Hc as [-> | [-> | ->]]; reflexivity.
 Qed.
 
 (* ------------------------------------------------------------------ synchronisation of the checker's tracking *)
@@ -208,7 +293,11 @@ Record sync (s : state) (k : track) : Prop := mkSync {
   sy_w : k_wf k = true -> wgood s;
   sy_inv : k_wf k && k_env k = true -> inv_ok (ledgers s);
   sy_rec : k_rec k = envrec s;
-  sy_kind : k_kind k = nkind s
+  sy_kind : k_kind k = nkind s;
+  sy_pend : k_pend k = pend s;
+  sy_gkey : k_gkey k = gkey s;
+  sy_k : kgood s;
+  sy_p : k_wf k = true -> pgood s
 }.
 
 Lemma init_sync : sync init_state init_track.
@@ -217,12 +306,14 @@ Proof.
   - apply init_ugood.
   - intros _. apply init_wgood.
   - intros _. apply inv_okb_spec. reflexivity.
+  - apply init_kgood.
+  - intros _. apply init_pgood.
 Qed.
 
 Lemma step_infos s o :
   infos (fst (step s o)) = match o with ORefresh inv => inv | _ => infos s end.
 Proof.
-  destruct o as [inv|p rq|p|p|p|p al| |p al|p|p rq vs|kind]; cbn [step]; auto.
+  destruct o as [inv|p rq|p|p|p|p al| |p al|p|p rq vs|kind|p rq hint al|p|p]; cbn [step]; auto.
   - destruct (lookup p (envrec s)); auto. destruct (allocate _ _ _ _); auto.
   - destruct (lookup p (envrec s)) as [[da [|]]|]; auto.
   - destruct (lookup p (envrec s)) as [[da b]|]; auto.
@@ -230,12 +321,17 @@ Proof.
   - destruct (lookup p (envrec s)); auto.
   - destruct (lookup p (envrec s)) as [[da b]|]; auto.
   - destruct (lookup p (envrec s)) as [[da b]|]; auto.
+  - destruct (lookup p (envrec s)); auto. now destruct (run_filter_fst s p (rq, desig_of hint al)) as [pd ->].
+  - destruct (lookup p (envrec s)); auto. destruct (lookup p (pend s)) as [c|]; auto.
+    now destruct (run_filter_fst s p c) as [pd ->].
+  - destruct (lookup p (envrec s)); auto. destruct (lookup p (pend s)) as [c|]; auto.
+    destruct (cycle_allocate s c); auto.
 Qed.
 
 Lemma step_kind s o :
   nkind (fst (step s o)) = match o with ONodeKind kind => kind | _ => nkind s end.
 Proof.
-  destruct o as [inv|p rq|p|p|p|p al| |p al|p|p rq vs|kind]; cbn [step]; auto.
+  destruct o as [inv|p rq|p|p|p|p al| |p al|p|p rq vs|kind|p rq hint al|p|p]; cbn [step]; auto.
   - destruct (lookup p (envrec s)); auto. destruct (allocate _ _ _ _); auto.
   - destruct (lookup p (envrec s)) as [[da [|]]|]; auto.
   - destruct (lookup p (envrec s)) as [[da b]|]; auto.
@@ -243,15 +339,32 @@ Proof.
   - destruct (lookup p (envrec s)); auto.
   - destruct (lookup p (envrec s)) as [[da b]|]; auto.
   - destruct (lookup p (envrec s)) as [[da b]|]; auto.
+  - destruct (lookup p (envrec s)); auto. now destruct (run_filter_fst s p (rq, desig_of hint al)) as [pd ->].
+  - destruct (lookup p (envrec s)); auto. destruct (lookup p (pend s)) as [c|]; auto.
+    now destruct (run_filter_fst s p c) as [pd ->].
+  - destruct (lookup p (envrec s)); auto. destruct (lookup p (pend s)) as [c|]; auto.
+    destruct (cycle_allocate s c); auto.
 Qed.
+
+(* the cycle an operation refers to, as the model sees it *)
+Definition open_of (s : state) (p : Z) : option cycle :=
+  match lookup p (envrec s) with Some _ => None | None => lookup p (pend s) end.
+Lemma open_cycle_sync s k p : sync s k -> open_cycle k p = open_of s p.
+Proof. intros Sy. unfold open_cycle, open_of. now rewrite (sy_rec _ _ Sy), (sy_pend _ _ Sy). Qed.
 
 (* operations that are no environment events keep the invariant *)
 Lemma step_inv s o :
-  ugood s -> wgood s -> op_wf o = true -> is_env_op o = false ->
-  match o with OSchedule _ rq => sched_ok (nkind s) (ledgers s) rq = true | _ => True end ->
+  ugood s -> wgood s -> pgood s -> op_wf o = true -> is_env_op o = false ->
+  match o with
+  | OSchedule _ rq => sched_ok (nkind s) (ledgers s) rq = true
+  | OReserve p => match open_of s p with
+                  | Some c => sched_ok (nkind s) (ledgers s) (fst c) = true
+                  | None => True end
+  | _ => True end ->
   inv_ok (ledgers s) -> inv_ok (ledgers (fst (step s o))).
 Proof.
-  intros U W Hwf He So I. destruct o as [inv|p rq|p|p|p|p al| |p al|p|p rq vs|kind]; try discriminate; cbn [step].
+  intros U W P Hwf He So I.
+  destruct o as [inv|p rq|p|p|p|p al| |p al|p|p rq vs|kind|p rq hint al|p|p]; try discriminate; cbn [step].
   - destruct (lookup p (envrec s)) as [x|] eqn:L; auto.
     destruct (allocate (nkind s) (ledgers s) (infos s) rq) as [|code|da] eqn:A; auto.
     cbn [fst ledgers]. eapply inv_schedule; eauto.
@@ -266,6 +379,14 @@ Proof.
     apply inv_remove; auto. eapply wg_rec; eauto.
   - cbn [fst]. exact I.
   - cbn [fst ledgers]. exact I.
+  - destruct (lookup p (envrec s)) as [x|] eqn:L; auto.
+    now destruct (run_filter_fst s p (rq, desig_of hint al)) as [pd ->].
+  - destruct (lookup p (envrec s)) as [x|] eqn:L; auto. destruct (lookup p (pend s)) as [c|]; auto.
+    now destruct (run_filter_fst s p c) as [pd ->].
+  - unfold open_of in So.
+    destruct (lookup p (envrec s)) as [x|] eqn:L; auto. destruct (lookup p (pend s)) as [c|] eqn:Lp; auto.
+    destruct (cycle_allocate s c) as [|code|da] eqn:A; auto.
+    cbn [fst ledgers]. eapply inv_reserve; eauto.
 Qed.
 
 (* operations whose output marks them as no-ops leave every ledger alone *)
@@ -273,7 +394,7 @@ Lemma step_frame s o :
   ugood s -> is_frame o (o_code (snd (step s o))) = true ->
   forall t, (t < 3)%nat -> ledger_of (ledgers (fst (step s o))) t = ledger_of (ledgers s) t.
 Proof.
-  intros U. destruct o as [inv|p rq|p|p|p|p al| |p al|p|p rq vs|kind]; cbn [step].
+  intros U. destruct o as [inv|p rq|p|p|p|p al| |p al|p|p rq vs|kind|p rq hint al|p|p]; cbn [step].
   - cbn. discriminate.
   - destruct (lookup p (envrec s)) as [x|] eqn:L; auto.
     destruct (allocate (nkind s) (ledgers s) (infos s) rq) as [|code|da] eqn:A; auto.
@@ -290,18 +411,30 @@ Proof.
   - destruct (lookup p (envrec s)) as [[da b]|] eqn:L; auto. cbn. discriminate.
   - cbn [fst]. auto.
   - cbn [fst ledgers]. auto.
+  - destruct (lookup p (envrec s)) as [x|] eqn:L; auto.
+    now destruct (run_filter_fst s p (rq, desig_of hint al)) as [pd ->].
+  - destruct (lookup p (envrec s)) as [x|] eqn:L; auto. destruct (lookup p (pend s)) as [c|]; auto.
+    now destruct (run_filter_fst s p c) as [pd ->].
+  - destruct (lookup p (envrec s)) as [x|] eqn:L; auto. destruct (lookup p (pend s)) as [c|]; auto.
+    destruct (cycle_allocate s c) as [|code|da] eqn:A; auto. cbn. discriminate.
 Qed.
 
-Lemma check_schedule_ok s k p rq :
+(* what an allocation reports *)
+Definition out_of (r : alloc_result) : opout :=
+  match r with ASkip => out_code c_skip | AFail c => out_code c | ADone da => mkOut c_ok da end.
+Lemma out_of_code r : o_code (out_of r) = code_of r.
+Proof. now destruct r. Qed.
+
+Lemma check_schedule_alloc s k rq :
   sync s k -> wgood s -> raw_nonneg rq = true ->
-  check_schedule k rq (snd (step s (OSchedule p rq))) = 0.
+  check_schedule k rq (out_of (allocate (nkind s) (ledgers s) (infos s) rq)) = 0.
 Proof.
-  intros Sy W NN. unfold check_schedule. rewrite (sy_prev _ _ Sy), (sy_infos _ _ Sy), (sy_kind _ _ Sy).
+  intros Sy W NN. unfold check_schedule, refused_ok, skip_ok.
+  rewrite (sy_prev _ _ Sy), (sy_infos _ _ Sy), (sy_kind _ _ Sy).
   assert (G : forall t, lgood (ledger_of (ledgers s) t)) by (intros t; apply (good_lgood s t (sy_u _ _ Sy) W)).
-  cbn [step]. destruct (lookup p (envrec s)) as [x|] eqn:L; [reflexivity|].
-  destruct (allocate (nkind s) (ledgers s) (infos s) rq) as [|code|da] eqn:A; cbn [snd o_code out_code o_allocs].
+  destruct (allocate (nkind s) (ledgers s) (infos s) rq) as [|code|da] eqn:A; cbn [out_of snd o_code out_code o_allocs].
   - unfold c_skip. cbn [Z.eqb Pos.eqb]. unfold chk. apply allocate_skip in A. now rewrite A.
-  - destruct (allocate_fail _ _ _ _ _ G A) as [[-> H]|[-> H]];
+  - destruct (allocate_fail _ _ _ _ _ G (fun _ => NN) A) as [[-> H]|[-> H]];
       unfold c_unresolvable, c_unsched; cbn [Z.eqb Pos.eqb]; unfold chk; now rewrite H.
   - unfold c_ok. cbn [Z.eqb]. unfold chk.
     destruct (sched_ok (nkind s) (ledgers s) rq) eqn:So; [|reflexivity]. cbn [negb orb].
@@ -309,6 +442,80 @@ Proof.
     { apply forallb_forall. intros t Ht. assert (t < 3)%nat by (cbn in Ht; lia).
       apply (type_done_sound (nkind s)); auto. eapply allocate_done; eauto. }
     now rewrite H.
+Qed.
+Lemma check_schedule_ok s k p rq :
+  sync s k -> wgood s -> raw_nonneg rq = true ->
+  check_schedule k rq (snd (step s (OSchedule p rq))) = 0.
+Proof.
+  intros Sy W NN. pose proof (check_schedule_alloc s k rq Sy W NN) as H.
+  cbn [step]. destruct (lookup p (envrec s)) as [x|] eqn:L; [reflexivity|].
+  destruct (allocate (nkind s) (ledgers s) (infos s) rq) as [|code|da]; exact H.
+Qed.
+
+Lemma existsb_req_or rq :
+  existsb (fun t => is_req (treq_of rq t)) type_ids = true ->
+  existsb (fun t => is_req (treq_of rq t) || is_invalid (treq_of rq t)) type_ids = true.
+Proof.
+  cbn [existsb type_ids]. intros H.
+  destruct (is_req (treq_of rq 0)), (is_req (treq_of rq 1)), (is_req (treq_of rq 2));
+    cbn in *; try discriminate; rewrite ?orb_true_r; auto.
+Qed.
+
+(* a designated pod: the Reserve phase ([reserve], the outcome with the allocation) and the Filter
+   phase (only the code) *)
+Lemma check_desig_model s k (reserve : bool) rq dg out :
+  sync s k -> wgood s -> raw_nonneg rq = true -> dallocs_wf dg = true ->
+  let r := allocate_d (nkind s) (gkey s) (ledgers s) (infos s) rq dg in
+  out = (if reserve then out_of r else out_code (code_of r)) ->
+  check_desig k reserve rq dg out = 0.
+Proof.
+  intros Sy W NN Wd r Eo.
+  assert (Ec : o_code out = code_of r) by (subst out; destruct reserve; [apply out_of_code|reflexivity]).
+  unfold check_desig, kfill, refused_ok. rewrite Ec.
+  rewrite (sy_prev _ _ Sy), (sy_infos _ _ Sy), (sy_kind _ _ Sy), (sy_gkey _ _ Sy).
+  assert (G : forall t, lgood (ledger_of (ledgers s) t)) by (intros t; apply (good_lgood s t (sy_u _ _ Sy) W)).
+  unfold r in *. clear r.
+  destruct (allocate_d (nkind s) (gkey s) (ledgers s) (infos s) rq dg) as [|code|da] eqn:A; cbn [code_of].
+  - unfold c_skip. cbn [Z.eqb Pos.eqb]. unfold chk, skip_ok. apply allocate_d_skip in A. now rewrite A.
+  - destruct (allocate_d_fail _ _ _ _ _ _ _ G Wd (fun _ => NN) A) as [[-> H]|[[-> [F [I Q]]]|[-> [dg' [F H]]]]];
+      unfold c_unresolvable, c_unsched, c_error; cbn [Z.eqb Pos.eqb]; unfold chk.
+    + now rewrite H.
+    + rewrite F, I. unfold skip_ok. rewrite (existsb_req_or rq Q). cbn. now destruct reserve.
+    + rewrite F, H. now destruct reserve.
+  - unfold c_ok. cbn [Z.eqb]. unfold chk.
+    destruct (sched_ok (nkind s) (ledgers s) rq) eqn:So; [|now destruct reserve]. cbn [negb orb].
+    destruct (allocate_d_done _ _ _ _ _ _ _ G Wd (fun _ => NN) A) as [dg' [F [_ D]]]. rewrite F.
+    destruct reserve.
+    + subst out. cbn [out_of o_allocs].
+      assert (H : forallb (fun t => alloc_sound_t (ledgers s) (infos s) t rq (allocs_of da t)
+                                    && desig_sound_t (ledgers s) (infos s) dg' t rq (allocs_of da t)) type_ids = true).
+      { apply forallb_forall. intros t Ht. assert (Ht3 : (t < 3)%nat) by (cbn in Ht; lia).
+        destruct (D t Ht3) as [D1 D2]. apply andb_true_intro. split.
+        - now apply (type_done_sound (nkind s)).
+        - now apply (type_done_d_sound (nkind s)). }
+      now rewrite H.
+    + assert (H : forallb (fun t => desig_enough_t (ledgers s) (infos s) dg' t rq) type_ids = true).
+      { apply forallb_forall. intros t Ht. assert (Ht3 : (t < 3)%nat) by (cbn in Ht; lia).
+        destruct (D t Ht3) as [D1 D2]. now apply (type_done_d_enough (nkind s) _ _ _ _ _ (allocs_of da t)). }
+      now rewrite H.
+Qed.
+
+Lemma check_filter_model s k c :
+  sync s k -> wgood s -> cycle_wf c ->
+  check_filter k c (out_code (fst (filter_verdict s c))) = 0.
+Proof.
+  intros Sy W [NN Wd]. unfold check_filter, filter_verdict. destruct (snd c) as [dg|]; cbn [fst].
+  - eapply check_desig_model; eauto; reflexivity.
+  - apply check_preempt_model; [apply Sy|apply Sy|apply Sy| |exact NN].
+    intros t. apply good_lgood; [apply Sy|exact W].
+Qed.
+Lemma check_reserve_model s k c :
+  sync s k -> wgood s -> cycle_wf c ->
+  check_reserve k c (out_of (cycle_allocate s c)) = 0.
+Proof.
+  intros Sy W [NN Wd]. unfold check_reserve, cycle_allocate. destruct (snd c) as [dg|].
+  - eapply check_desig_model; eauto; reflexivity.
+  - now apply check_schedule_alloc.
 Qed.
 
 Lemma first_nz_zero l : (forall c, In c l -> c = 0) -> first_nz l = 0.
@@ -319,6 +526,113 @@ Qed.
 Lemma chk_zero b c : b = true -> chk b c = 0.
 Proof. now intros ->. Qed.
 
+(* output and open cycles of the three cycle operations *)
+Lemma run_filter_out s p c : snd (run_filter s p c) = out_code (fst (filter_verdict s c)).
+Proof. unfold run_filter. now destruct (filter_verdict s c). Qed.
+Lemma run_filter_pend s p c :
+  pend (fst (run_filter s p c)) =
+  if fst (filter_verdict s c) =? 0 then set_key p (snd (filter_verdict s c)) (pend s)
+  else remove_key p (pend s).
+Proof. unfold run_filter. now destruct (filter_verdict s c). Qed.
+Lemma filter_verdict_code s c : fst (filter_verdict s c) <> -1.
+Proof.
+  unfold filter_verdict. destruct (snd c) as [dg|]; cbn [fst].
+  - destruct (allocate_d _ _ _ _ _ dg) as [|code|da] eqn:A; cbn [code_of]; try discriminate.
+    destruct (allocate_d_fail_codes _ _ _ _ _ _ _ A) as [-> | [-> | ->]]; discriminate.
+  - rewrite preempt_verdict_unfold. cbn zeta.
+    repeat match goal with |- context [if ?b then _ else _] => destruct b end; discriminate.
+Qed.
+Lemma filled_cycle_sync s k c : sync s k -> filled_cycle k c = snd (filter_verdict s c).
+Proof.
+  intros Sy. unfold filled_cycle, filter_verdict, kfill.
+  rewrite (sy_prev _ _ Sy), (sy_gkey _ _ Sy). destruct c as [rq [dg|]]; reflexivity.
+Qed.
+
+Lemma step_pend_sync s k o :
+  sync s k -> pend (fst (step s o)) = next_pend k o (snd (step s o)).
+Proof.
+  intros Sy. pose proof (step_pend s o) as E. unfold next_pend.
+  destruct o as [inv|p rq|p|p|p|p al| |p al|p|p rq vs|kind|p rq hint al|p|p];
+    try (rewrite E, (sy_pend _ _ Sy); now destruct (o_code _ =? -1)); cbn [step].
+  - destruct (lookup p (envrec s)) as [x|] eqn:L; [cbn; apply (eq_sym (sy_pend _ _ Sy))|].
+    rewrite run_filter_out, run_filter_pend. cbn [o_code out_code].
+    pose proof (filter_verdict_code s (rq, desig_of hint al)) as Hc. apply Z.eqb_neq in Hc. rewrite Hc.
+    now rewrite (filled_cycle_sync s k _ Sy), (sy_pend _ _ Sy).
+  - rewrite (open_cycle_sync s k p Sy). unfold open_of.
+    destruct (lookup p (envrec s)) as [x|] eqn:L; [cbn; apply (eq_sym (sy_pend _ _ Sy))|].
+    destruct (lookup p (pend s)) as [c|] eqn:Lp; [|cbn; apply (eq_sym (sy_pend _ _ Sy))].
+    rewrite run_filter_out, run_filter_pend. cbn [o_code out_code].
+    pose proof (filter_verdict_code s c) as Hc. apply Z.eqb_neq in Hc. rewrite Hc.
+    now rewrite (filled_cycle_sync s k _ Sy), (sy_pend _ _ Sy).
+  - destruct (lookup p (envrec s)) as [x|] eqn:L; [cbn; apply (eq_sym (sy_pend _ _ Sy))|].
+    destruct (lookup p (pend s)) as [c|] eqn:Lp; [|cbn; apply (eq_sym (sy_pend _ _ Sy))].
+    assert (Hc : code_of (cycle_allocate s c) <> -1).
+    { destruct (cycle_allocate s c) as [|code|da] eqn:A; cbn [code_of]; try discriminate.
+      assert (Hc : code = c_unresolvable \/ (code = c_unsched \/ code = c_error)).
+      { unfold cycle_allocate in A. destruct (snd c).
+        - eapply allocate_d_fail_codes; eauto.
+        - eapply allocate_fail_codes; eauto. }
+      destruct Hc as [-> | [-> | ->]]; discriminate. }
+    apply Z.eqb_neq in Hc. rewrite <- (sy_pend _ _ Sy).
+    destruct (cycle_allocate s c) as [|code|da]; cbn [fst snd o_code out_code with_pend pend code_of] in *;
+      now rewrite Hc.
+Qed.
+
+Lemma step_gkey_sync s k o :
+  sync s k ->
+  gkey (fst (step s o)) =
+  (k_gkey k || match o with ORefresh inv => has_gpu inv | _ => false end
+   || negb (is_nil (aset (ledger_of (ledgers (fst (step s o))) 0)))).
+Proof.
+  intros Sy. rewrite (sy_gkey _ _ Sy). destruct (sy_k _ _ Sy) as [K1 K2].
+  pose proof (step_kgood s o (sy_k _ _ Sy)) as [K1' _]. unfold lof in K1, K1'.
+  assert (Same : forall s', ledgers s' = ledgers s -> gkey s' = gkey s ->
+            gkey s' = gkey s || false || negb (is_nil (aset (ledger_of (ledgers s') 0)))).
+  { intros s' El Eg. rewrite El, Eg, orb_false_r.
+    destruct (is_nil (aset (ledger_of (ledgers s) 0))) eqn:E; cbn [negb]; [now rewrite orb_false_r|].
+    rewrite (K1 eq_refl). reflexivity. }
+  assert (Gk : forall ls, gk s ls = gkey s || false || negb (is_nil (aset (ledger_of ls 0)))).
+  { intros ls. unfold gk. now rewrite orb_false_r. }
+  destruct o as [inv|p rq|p|p|p|p al| |p al|p|p rq vs|kind|p rq hint al|p|p]; cbn [step].
+  - cbn [fst gkey ledgers]. cbn [step fst lof ledgers] in K1'.
+    destruct (is_nil (aset (ledger_of (refresh s inv) 0))) eqn:E; cbn [negb]; [now rewrite orb_false_r|].
+    specialize (K1' eq_refl). cbn [gkey] in K1'. rewrite K1'. reflexivity.
+  - destruct (lookup p (envrec s)); [now apply Same|].
+    destruct (allocate _ _ _ _); cbn [fst]; try (now apply Same). apply Gk.
+  - destruct (lookup p (envrec s)) as [[da [|]]|]; cbn [fst forget]; try (now apply Same). apply Gk.
+  - destruct (lookup p (envrec s)) as [[da b]|]; cbn [fst]; try (now apply Same). apply Gk.
+  - destruct (lookup p (envrec s)) as [[da b]|]; cbn [fst forget]; apply Gk.
+  - destruct (lookup p (envrec s)); cbn [fst]; try (now apply Same). apply Gk.
+  - cbn [fst gkey ledgers]. cbn [step fst lof ledgers] in K1'.
+    destruct (has_gpu (infos s)) eqn:Hg.
+    + rewrite (K2 eq_refl). reflexivity.
+    + rewrite !orb_false_r.
+      destruct (is_nil (aset (ledger_of (refresh s (map unhealthy (infos s))) 0))) eqn:E; cbn [negb];
+        [now rewrite orb_false_r|].
+      specialize (K1' eq_refl). cbn [gkey] in K1'. rewrite orb_false_r in K1'. rewrite K1'. reflexivity.
+  - destruct (lookup p (envrec s)) as [[old b]|]; cbn [fst]; try (now apply Same).
+    cbn [gkey ledgers]. rewrite orb_false_r. unfold gk.
+    set (ls1 := cache_update false (ledgers s) p old).
+    destruct (is_nil (aset (ledger_of ls1 0))) eqn:E1; cbn [negb]; [now rewrite orb_false_r|].
+    (* the old allocation's removal leaves pods behind: the entry existed before *)
+    assert (Hk : gkey s = true).
+    { apply K1. unfold ls1 in E1. rewrite ledger_of_cache_update in E1 by lia. unfold upd_t in E1.
+      destruct (allocs_of old 0) as [|a0 al0]; auto. unfold ledger_remove in E1.
+      destruct (negb (aset_mem p (aset (ledger_of (ledgers s) 0)))); auto.
+      cbn [aset reset_free] in E1. unfold aset_remove in E1.
+      destruct (aset (ledger_of (ledgers s) 0)); [discriminate|reflexivity]. }
+    now rewrite Hk.
+  - destruct (lookup p (envrec s)) as [[da b]|]; cbn [fst forget]; try (now apply Same). apply Gk.
+  - cbn [fst]. now apply Same.
+  - cbn [fst]. now apply Same.
+  - destruct (lookup p (envrec s)); [now apply Same|].
+    destruct (run_filter_fst s p (rq, desig_of hint al)) as [pd ->]. now apply Same.
+  - destruct (lookup p (envrec s)); [now apply Same|]. destruct (lookup p (pend s)) as [c|]; [|now apply Same].
+    destruct (run_filter_fst s p c) as [pd ->]. now apply Same.
+  - destruct (lookup p (envrec s)); [now apply Same|]. destruct (lookup p (pend s)) as [c|]; [|now apply Same].
+    destruct (cycle_allocate s c); cbn [fst]; try (now apply Same). apply Gk.
+Qed.
+
 Lemma step_check s k o :
   sync s k ->
   check_step k o (snd (step s o), ledgers (fst (step s o))) = 0 /\
@@ -327,15 +641,18 @@ Proof.
   intros Sy. pose proof (sy_u _ _ Sy) as U.
   destruct (step_good s o U) as [U' W'].
   assert (Wf' : k_wf k && op_wf o = true -> wgood (fst (step s o))).
-  { intros H. apply andb_prop in H as [H1 H2]. apply W'; auto. now apply Sy. }
+  { intros H. apply andb_prop in H as [H1 H2]. apply W'; auto; now apply Sy. }
+  assert (Pf' : k_wf k && op_wf o = true -> pgood (fst (step s o))).
+  { intros H. apply andb_prop in H as [H1 H2]. apply step_pgood; auto; now apply Sy. }
   assert (Inv' : k_wf k && op_wf o = true ->
                  k_env k && (negb (is_env_op o) || inv_okb (ledgers (fst (step s o)))) && step_ok k o = true ->
                  inv_okb (ledgers (fst (step s o))) = true).
   { intros H1 H2. apply andb_prop in H1 as [Hw Ho]. apply andb_prop in H2 as [H2 Hs].
     apply andb_prop in H2 as [He H2].
     destruct (is_env_op o) eqn:Eo; [exact H2|].
-    apply inv_okb_spec. apply step_inv; auto; [now apply Sy| |].
+    apply inv_okb_spec. apply step_inv; auto; [now apply Sy|now apply Sy| |].
     - unfold step_ok in Hs. rewrite (sy_prev _ _ Sy), (sy_kind _ _ Sy) in Hs. destruct o; auto.
+      rewrite (open_cycle_sync s k p Sy) in Hs. now destruct (open_of s p).
     - apply (sy_inv _ _ Sy). now rewrite Hw, He. }
   split.
   - unfold check_step. apply first_nz_zero. intros c Hc.
@@ -348,20 +665,38 @@ Proof.
       apply (lg_sum _ (good_lgood _ t U' (Wf' eq_refl))).
     + apply chk_zero. destruct (k_wf k && op_wf o) eqn:Hw; auto. cbn [andb].
       destruct (k_env k && (negb (is_env_op o) || inv_okb (ledgers (fst (step s o)))) && step_ok k o) eqn:He; auto.
-    + destruct (k_wf k && op_wf o) eqn:Hw; auto. destruct o; auto.
-      * apply andb_prop in Hw as [Hw Ho]. apply check_schedule_ok; auto. now apply Sy.
-      * apply andb_prop in Hw as [Hw Ho]. cbn [step snd].
-        apply check_preempt_model; [apply Sy|apply Sy|apply Sy|].
-        intros t. apply good_lgood; [exact U|now apply Sy].
+    + destruct (k_wf k && op_wf o) eqn:Hw; auto. apply andb_prop in Hw as [Hw Ho].
+      pose proof (sy_w _ _ Sy Hw) as W. pose proof (sy_p _ _ Sy Hw) as P.
+      destruct o as [inv|p rq|p|p|p|p al| |p al|p|p rq vs|kind|p rq hint al|p|p]; auto.
+      * apply check_schedule_ok; auto.
+      * cbn [step snd].
+        apply check_preempt_model; [apply Sy|apply Sy|apply Sy| |exact Ho].
+        intros t. apply good_lgood; [exact U|exact W].
+      * rewrite (sy_rec _ _ Sy). cbn [step]. destruct (lookup p (envrec s)) as [x|] eqn:L; [reflexivity|].
+        rewrite run_filter_out. apply check_filter_model; auto.
+        cbn [op_wf] in Ho. apply andb_prop in Ho as [NN Wa]. split; auto. cbn [snd].
+        unfold desig_of. destruct (hint && negb (is_nil al)); auto.
+      * rewrite (open_cycle_sync s k p Sy). unfold open_of. cbn [step].
+        destruct (lookup p (envrec s)) as [x|] eqn:L; [reflexivity|].
+        destruct (lookup p (pend s)) as [c|] eqn:Lp; [|reflexivity].
+        rewrite run_filter_out. apply check_filter_model; eauto.
+      * rewrite (open_cycle_sync s k p Sy). unfold open_of. cbn [step].
+        destruct (lookup p (envrec s)) as [x|] eqn:L; [reflexivity|].
+        destruct (lookup p (pend s)) as [c|] eqn:Lp; [|reflexivity].
+        pose proof (check_reserve_model s k c Sy W (P _ _ Lp)) as H.
+        destruct (cycle_allocate s c) as [|code|da]; exact H.
     + apply chk_zero. destruct (is_frame o (o_code (snd (step s o)))) eqn:F; auto. cbn [negb orb].
       rewrite (sy_prev _ _ Sy). apply ledgers_eqb_same. now apply step_frame.
     + apply chk_zero. apply forallb_forall. intros t Ht. assert (t < 3)%nat by (cbn in Ht; lia).
       rewrite (sy_rec _ _ Sy), <- step_rec. apply cons_consb. now apply U'.
-  - constructor; cbn [next_track k_prev k_infos k_wf k_env k_rec k_kind]; auto.
+  - constructor; cbn [next_track k_prev k_infos k_wf k_env k_rec k_kind k_pend k_gkey]; auto.
     + rewrite step_infos, (sy_infos _ _ Sy). reflexivity.
     + intros H. apply inv_okb_spec. apply andb_prop in H as [H1 H2]. now apply Inv'.
     + rewrite (sy_rec _ _ Sy). symmetry. apply step_rec.
     + rewrite step_kind, (sy_kind _ _ Sy). reflexivity.
+    + symmetry. now apply step_pend_sync.
+    + symmetry. now apply step_gkey_sync.
+    + apply step_kgood. apply Sy.
 Qed.
 
 Theorem prop_from_run s k ops : sync s k -> prop_from k ops (run_from s ops) = 0.
